@@ -60,3 +60,5 @@ for t in ('DT_YMD', 'DT_YD', 'DT_YWD', 'DT_DAISY'):
 for dow in range(1, 8):
     G('dm.__get_nbdays.%d' % dow, 'date-core', '__get_nbdays', ['C07'], ins=[('int', 'in_dur'), (U, 'in_wd')], fix={'in_wd': str(dow)}, call='__get_nbdays(in_dur, (dt_dow_t)in_wd)', ret='int',
       solvers=SV, timeout=600, sweep={'in_dur': '(int)(RND % 4000) - 2000'})
+G('dm.__strfd_card.mem', 'date-core', 'h_strfd_card_mem', ['C10'], body='\th_strfd_card_mem();', direct=True, native=False, reach=False, must=['MEMSAFE'], unwind=4, timeout=900,
+  flags=['--no-malloc-may-fail'])
